@@ -520,6 +520,42 @@ def gen_burst_case(rng, deb=None):
     return s.text(), {"deb": deb}
 
 
+def gen_debounce_case(rng):
+    """C01 at the level of the handler: the debounce interval is changed by rewriting the configuration file (same
+    queue) while items are pending; every pass is judged with the interval in force"""
+    import copy as _copy
+    d0 = rng.choice([1, 2, 3, 5])
+    s = Script()
+    cfg = setup_world(s, base_cfg(deb=d0))
+    s.start()
+    s.exec(3, X + "/vim")
+    files = [WATCH + "/inc/a.txt", WATCH + "/n", WATCH + "/inc/b"]
+    n = 0
+    for _ in range(rng.randint(6, 25)):
+        r = rng.random()
+        if r < 0.4:
+            f = rng.choice(files)
+            n += 1
+            s.put(f, "content %d" % n)
+            s.write(3, f)
+        elif r < 0.6:
+            s.tick(rng.choice([0, 1, 1, 2, max(cfg.deb - 1, 0), cfg.deb, cfg.deb + 1]))
+        elif r < 0.75:
+            cfg = _copy.deepcopy(cfg)
+            cfg.deb = rng.choice([d for d in [0, 1, 2, 3, 5, 30] if d != cfg.deb])
+            s.config(cfg)
+            s.write(4, CFG_PATH)       # written by a non-editor: the reload happens, the file itself is not queued
+        else:
+            s.dump()
+            s.timeout()
+            s.dump()
+    s.tick(cfg.deb + 1)
+    s.dump()
+    s.timeout()
+    s.dump()
+    return s.text(), {"deb": d0}
+
+
 def gen_collision_case(rng):
     """C04: many versions inside one timestamp, pre-existing store content, restarts"""
     s = Script()
@@ -531,6 +567,10 @@ def gen_collision_case(rng):
     rel = f[len(WATCH) + 1:]
     ext = {"a.txt": ".txt", "b": "", "x.tar.gz": ".tar.gz", "m.c": ".c"}[rel.rsplit("/", 1)[1]]
     # pre-seed the store with names the daemon will want
+    if rng.random() < 0.08:
+        # a long run of taken names: the first free one is far away (-64, -65, -70, -130)
+        for k in range(rng.choice([64, 65, 70, 130])):
+            s.put("%s/k/store/%s/%s%s%s" % (R, rel, ver, "-%d" % k if k else "", ext), "old %d" % k)
     for k in rng.sample(range(0, 6), rng.randint(0, 4)):
         s.put("%s/k/store/%s/%s%s%s" % (R, rel, ver, "-%d" % k if k else "", ext), "old %d" % k)
     if rng.random() < 0.3:
@@ -645,6 +685,7 @@ def gen_project_case(rng):
     exists = set()
     blockers = set()
     dirs = set()
+    unreadable = set()
     n = 0
     if rng.random() < 0.25:
         # the project store is unusable for a while (a stray regular file where its directory belongs): the pass that
@@ -677,6 +718,9 @@ def gen_project_case(rng):
                 if f.startswith(b + "/"):
                     s.rm(b)
                     blockers.discard(b)
+            if f in unreadable:
+                s.chmod(f, True)
+                unreadable.discard(f)
             s.put(f, "c%d" % n)
             exists.add(f)
             a = f.rsplit("/", 1)[0]
@@ -684,7 +728,16 @@ def gen_project_case(rng):
                 dirs.add(a)
                 a = a.rsplit("/", 1)[0]
             s.write(3, f)
+        elif r < 0.55 and f in exists and f not in unreadable:
+            # a member that has been written (maybe versioned) becomes unreadable: "forbidden" when its turn comes,
+            # but it still exists, so snapshots keep it
+            s.write(3, f)
+            s.chmod(f, False)
+            unreadable.add(f)
         elif r < 0.6 and f in exists:
+            if f in unreadable:
+                s.chmod(f, True)
+                unreadable.discard(f)
             s.rm(f)
             exists.discard(f)
             # sometimes the whole sub-directory goes with its last file
